@@ -73,7 +73,7 @@ var props = []*core.Property{
 		technique:  "lockset dataflow with requires-lock summaries; origin classes (fresh/param/global); store and append inventory; transitive atomic-load counting",
 		expl:       "decides the locking and publication discipline for all interleavings",
 		notCovered: []string{"races inside user-supplied detectors", "linearizability as a property of histories (only the structural single-snapshot condition is decided)"},
-		rules:      []*core.Rule{ruleAtomics, ruleLockset, ruleWriteOnce, ruleSharedAppend, rulePkgState, ruleSnapshot, ruleFreshResults, rulePools}}),
+		rules:      []*core.Rule{ruleAtomics, ruleLockset, ruleWriteOnce, ruleSharedAppend, rulePkgState, ruleSnapshot, ruleFreshResults, rulePools, ruleExtend}}),
 	mk(pd{id: "C07", level: "proof",
 		levelText:  "Exhaustive: the text detector's per-byte predicate is tabulated over all 256 byte values from its SSA and equals the WHATWG binary-data-byte table; the BOM table is exactly the five marks with no shadowed entry; the scan covers the whole unmodified header; text/plain exists once, under the root, last; children are consulted only after the parent; only the first `limit` bytes reach the walk and no detector tried before text writes into them.",
 		technique:  "finite-domain evaluation of SSA expression trees over the byte domain; shape rules; tree model",
@@ -85,7 +85,7 @@ var props = []*core.Property{
 		technique:  "finite-domain tabulation with forking walk; failed-edge propagation rule on the scanner's CFGs; provenance of the entry's results",
 		expl:       "decides the decision logic around the scanner, not the scanner's grammar",
 		notCovered: []string{"completeness of the scanner for every RFC 8259 document and every cut point (grammar-level; not decided)"},
-		rules:      []*core.Rule{ruleTruncTable, ruleFailProp, ruleParseResults, ruleAccounting, ruleLexTables, ruleCap, ruleDepthCost, ruleJSONNodes, ruleTokenGate, ruleJSONGate, ruleSnapshot, rulePools}}),
+		rules:      []*core.Rule{ruleTruncTable, ruleFailProp, ruleParseResults, ruleAccounting, ruleLexTables, ruleCap, ruleDepthCost, ruleJSONNodes, ruleTokenGate, ruleJSONGate, ruleSnapshot, rulePools, ruleReader, ruleLimitSlice}}),
 	mk(pd{id: "C09", level: "other",
 		levelText:  "Necessary conditions of JSON soundness: failure propagation; whole-mode acceptance is parsed == len; per-byte tables of every structural byte test in the container loops (only ',' continues, only the matching closer closes, '\"' starts a key, ':' follows it, everything else fails), value dispatch table; first-token gate.",
 		technique:  "finite-domain tabulation of byte dispatches (256 values each) with helper-call folding; failed-edge propagation",
@@ -115,7 +115,7 @@ var props = []*core.Property{
 		technique:  "finite-domain tabulation; path-sensitive error typestate; field-store inventory on the csv reader",
 		expl:       "decides the truncation and acceptance logic around encoding/csv and the JSON scanner",
 		notCovered: []string{"behaviour of encoding/csv at every cut position"},
-		rules:      []*core.Rule{ruleDropLastLine, ruleInspectedGuard, ruleLineThresholds, ruleTruncTable, ruleSnapshot, rulePools, ruleFailProp}}),
+		rules:      []*core.Rule{ruleDropLastLine, ruleInspectedGuard, ruleLineThresholds, ruleTruncTable, ruleSnapshot, rulePools, ruleFailProp, ruleReader, ruleLimitSlice}}),
 	mk(pd{id: "C14", level: "other",
 		levelText:  "Extend builds a fresh node from its parameters with parent = receiver and publishes [new] ++ old by one store under the write lock, old children read under the same lock; package-level Extend delegates to the root; lookup visits type, every alias and every child; the walk is first-match over whatever children holds; results are clones.",
 		technique:  "shape rules on Extend's SSA; lockset regions; origin analysis",
